@@ -1124,11 +1124,13 @@ class Duration(AnyAtomicType):
             seconds = -seconds - (days * 24 + hours) * 3600 - minutes * 60
 
         if cls is DayTimeDuration:
-            if months:
+            if y is not None or mo is not None:
+                # the lexical space has only the day and time fragments (pattern [^YM]*(T.*)?)
                 raise ValueError('months must be 0 for %r' % cls.__name__)
             return cls(seconds=seconds)
         elif cls is YearMonthDuration:
-            if seconds:
+            if d is not None or h is not None or mi is not None or s is not None:
+                # the lexical space has only the year and month fragments (pattern [^DT]*)
                 raise ValueError('seconds must be 0 for %r' % cls.__name__)
             return cls(months=months)
         return cls(months=months, seconds=seconds)
